@@ -65,7 +65,7 @@ def render_elem(x, cols_now, for_plain):
     if x >= NAME:
         c = x - NAME
         if not for_plain:
-            if c >= len(samples.PNE) or ('c%d' % c) not in LOADED_NAMES:
+            if c >= len(samples.PNE) or samples.name(c) not in LOADED_NAMES:
                 # a string that is no channel NAME of the file: every other time it is the LABEL ($PnS) of a channel
                 # - a label is not a name, the key is unknown all the same
                 UNKNOWN_TOGGLE[0] += 1
